@@ -64,7 +64,11 @@ fn fmt_usize(mut v: usize, buf: &mut [u8; 24]) -> &[u8] {
 extern "C" fn on_crash(sig: libc::c_int, _info: *mut libc::siginfo_t, _ctx: *mut libc::c_void) {
     unsafe {
         if IN_HANDLER.swap(true, Ordering::SeqCst) {
-            libc::_exit(1);
+            // another thread is already reporting (a defect often makes several workers crash at once):
+            // let it finish its replay file and VIOLATION line — it ends the process
+            loop {
+                libc::pause();
+            }
         }
         let mut nb = [0u8; 24];
         // path = prefix + "sig" + N + "-" + pid + ".json"
